@@ -214,7 +214,7 @@ Proof.
   destruct v; simpl; intros E; inversion E; subst; rewrite ?hv_own, ?hv_act; pose proof (hind_range x (HO a)); lia.
 Qed.
 
-Lemma hci_kind x ci k : ci_kind ci = k -> hci x ci = hkind x k + hcc x ci.
+Lemma hci_kind x ci k : ci_kind ci = k -> hci x ci = hkind x k + (if rkb k then hcc x ci else 0).
 Proof. intros <-. reflexivity. Qed.
 
 Lemma hst_H x s : hst x s = H x s + ctr x s.
